@@ -852,23 +852,6 @@ def run(ctx):
     if corr_fail:
         big = True          # correspondence broken: search at the thorough budget
 
-    # genuine departure of the unchanged code (reported to the lead): the block-level option word `press` (an equivalent spelling of
-    # `pressure`) written without the dash after the heading row of a SOLUTION_SPREAD is ignored
-    obs0 = G.observables(["Na", "Cl"])
-    pb0 = G.punch_block(obs0 + [("i", "pressure", "PRESSURE")])
-    fa = pb0 + "SOLUTION_SPREAD\n Number\tNa\tCl\n pressure 5\n 1\t1.0\t1.0\nEND\n"
-    fb = pb0 + "SOLUTION_SPREAD\n Number\tNa\tCl\n press 5\n 1\t1.0\t1.0\nEND\n"
-    fpair = dict(kind="speciation", fam="spread_option_spelling", k=1.0, a=fa, b=fb, last_only=False, last_k=None,
-                 obs=[(t, h) for t, h, _ in obs0] + [("i", "pressure")])
-    fst, fdet = run_pairs(ctx, exe, dbpath, [fpair])[0]
-    evals += 1
-    if fst != "ok":
-        ctx.finding("spread-press-option-ignored",
-                    "SOLUTION_SPREAD: the block-level option `press 5` (no dash) after the heading row is ignored (pressure stays 1 atm) while "
-                    "`pressure 5`, `-press 5` and `press 5` before the heading row set 5 atm: the option switch of read_solution_spread has "
-                    "`case 14` (pressure) but no `case 15` (press): " + str(fdet),
-                    {"kind": "pair", "pair": fpair, "detail": str(fdet)})
-    ctx.cov["finding_probe_spread_press_option"] = fst
     base_v = len(ctx.violations)       # an unlisted finding is reported but does not stop or shorten the search
 
     # corpus: minimised past misses, always replayed first
